@@ -105,6 +105,8 @@ func (s *Session) Do(m Msg, dir string) Reply {
 		return s.Call("textDocument/semanticTokens/range", fmt.Sprintf(`{"textDocument":{"uri":%s},"range":{"start":{"line":%d,"character":0},"end":{"line":%d,"character":0}}}`, Q(uri), m.Line, m.Char))
 	case "inline":
 		return s.Call("textDocument/inlineCompletion", DocPos(uri, m.Line, m.Char))
+	case "codeaction":
+		return s.Call("textDocument/codeAction", fmt.Sprintf(`{"textDocument":{"uri":%s},"range":{"start":{"line":0,"character":0},"end":{"line":0,"character":0}},"context":{"diagnostics":[]}}`, Q(uri)))
 	}
 	return Reply{Err: "harness: unknown op " + m.Op}
 }
